@@ -15,9 +15,9 @@ def main():
         try:
             m = importlib.import_module(c["main"])
             if c["entry"] == "program":
-                out[c["main"]] = pt.compileTeal(m.program(), pt.Mode.Application, version=c["version"])
+                out[c["main"]] = pt.compileTeal(m.program(), pt.Mode.Application, version=c["version"], assembleConstants=bool(c.get("assemble")))
             else:
-                ap, cl, _ = m.router().compile_program(version=c["version"])
+                ap, cl, _ = m.router().compile_program(version=c["version"], assemble_constants=bool(c.get("assemble")))
                 out[c["main"]] = ap + "\n=====\n" + cl
         except Exception as e:
             out[c["main"]] = "EXC:%s:%s" % (type(e).__name__, str(e)[:200])
